@@ -132,6 +132,7 @@ where
         let keep_alive = pkt.keep_alive;
         let max_packet_size = pkt.max_packet_size.map_or(0, NonZero::get);
         let max_receive = pkt.receive_max.map_or(65535, NonZero::get);
+        let topic_alias_max = pkt.topic_alias_max;
         let pool = self.pool.clone();
 
         let codec = codec::Codec::new();
@@ -146,6 +147,7 @@ where
         })?;
 
         let shared = Rc::new(MqttShared::new(io.get_ref(), codec, pool));
+        shared.set_topic_alias_max(topic_alias_max);
         match packet {
             Decoded::Packet(Packet::ConnectAck(pkt), ..) => {
                 log::trace!("Connect ack response from server: {pkt:#?}");
